@@ -92,6 +92,10 @@ def rule(key, dig, desc, kinds):
         # chain_A|g1_23_0 (numpydoc -> class): a default without prose is lost in the docstring hop; the next hop invents its own
         if anyk(*DOCS, *FN) and any(not e["doc"] and e["default"] != ABSENT for e in ps):
             return "KF-RT-noprose-default"
+        # chain_A|g1_41_2 (argparse -> function): argparse's zero value '' for a Literal parameter, then the function docstring's
+        # 'Defaults to ""' makes the parser replace the annotation by 'str' (KF-RT-fn-typ-from-default)
+        if "argparse" in kinds[:-1] and kinds[-1] in FN and any(e["default"] == ABSENT and e["typ"] not in ("int", "str", "float", "bool") for e in ps):
+            return "KF-RT-fn-typ-from-default"
         # chain_A|g3_19_1_0 (function -> numpydoc): emit.function invents `= None` (KF-RT-fn-none-default), which then counts as "a default
         # was seen" for numpydoc/google: the return entry acquires the zero value
         if any(k in FN for k in kinds[:-1]) and kinds[-1] in ("numpydoc", "google") and any(e["default"] == ABSENT for e in ps):
